@@ -3,4 +3,7 @@
 
 int asn1c_emit_constraint_checking_code(arg_t *arg);
 
+/* Emit only the permitted alphabet tables the PER codec needs (-fno-constraints) */
+int asn1c_emit_constraint_tables_only(arg_t *arg);
+
 #endif	/* ASN1C_CONSTRAINT_H */
